@@ -66,6 +66,48 @@ CHECKS = {
         text="{:?} and {:#?} of the eight state-hiding types are byte-identical across seeds for every enumerated history and contain none of the words of the state image, the seed, the pool or the next two blocks of output; JitterRng gives one single text over all histories, timers and pool values.",
         note="bounded depth; secret words >= 2^16 only (smaller values collide with the public index)",
         ref="4/C17"),
+    "C08": dict(
+        engine="E2+E4", cat="model_checking",
+        technique="exhaustive enumeration of every constructor over structured seed alphabets, the u64 alphabet (incl. the SplitMix64 zero-output preimages), complete 2^22/2^32 sub-cubes of the u64 argument, and source scripts with 0..8 leading all-zero blocks",
+        text="from_seed, seed_from_u64, from_rng and try_from_rng of the 14 linear xoshiro types and XorShiftRng never return the all-zero state on any enumerated input; the zero seed is replaced by the documented generator, an all-zero source block is remapped or redrawn, and every non-zero alphabet seed is used verbatim (state image == seed, hence injective).",
+        note="documented replacement values; u64 arguments outside the alphabet and sub-cubes are not enumerated (the structural argument about SplitMix64 zero outputs is covered by including all eight preimages)",
+        ref="4/C08"),
+    "C09": dict(
+        engine="E2+E4", cat="fault_enumeration",
+        technique="exhaustive enumeration of (leading zero blocks, first failing source call, fault mode) for an instrumented TryRngCore source, of byte-probe source scripts, and of u64 arguments (alphabet, ranges, complete sub-cubes) against the documented expansions",
+        text="For all 20 seedable types seed_from_u64(x) equals from_seed of the documented expansion, from_rng builds exactly the generator of the bytes the source delivered and leaves the source advanced by exactly one seed's worth (redraws for XorShiftRng only), and try_from_rng returns the same generator for a source that does not fail and the source's own error for every (failing call, fault mode) that precedes acceptance.",
+        note="expansion models (SplitMix64, PCG32, ISAAC one/two-pass init) written independently; ISAAC generators compared by serde image of the fresh core",
+        ref="4/C09"),
+    "C12": dict(
+        engine="E4xE1", cat="model_checking",
+        technique="all operation histories up to depth 3/4 x every placement of <= 1 (short histories: 2) timer deviations of 12 kinds over the readings consumed, compared step by step (value, readings consumed, final pool) with a reference model of the documented procedure",
+        text="JitterRng driven by scripted call-counting timers returns, for every enumerated history and deviation placement, exactly the values, reading counts and final pool of the documented Jitterentropy procedure run on the same readings; test_timer is included with a deviation at every 23rd / every one of its 1601 readings.",
+        note="reference model in refmodels::jitter; more than 2 simultaneous deviations only as bursts in C14; rounds > 3 run without deviations",
+        ref="4/C12"),
+    "C13": dict(
+        engine="E4", cat="model_checking",
+        technique="exhaustive enumeration of complete 1601-reading timer scripts (every variation sum 1..6000 and every log2 boundary, threshold scripts, all periodic delta patterns of period <= 3/4) against an oracle computed from the statement",
+        text="For every enumerated timer, Ok(r) is returned only when no documented failure condition holds, with 1 <= r <= 128, r*bitlen(mean) >= 128 and set_rounds(r) not panicking; every Err names a condition that holds on the script. Every table value of r and every TimerError variant is observed.",
+        note="conditions computed from the readings on the documented schedule (confirmed on the run); genuine defect fixed in 048a21d (Ok(0) for mean 1)",
+        ref="4/C13"),
+    "C14": dict(
+        engine="E1+E2+E4", cat="model_checking",
+        technique="panic oracle (catch_unwind in an overflow-checked build) over all histories to depth 3/4, every fill length, long block runs, all constructors on their alphabets incl. failing sources, and for JitterRng every single deviation and all 12^3 three-probe bursts of extreme deltas",
+        text="No enumerated operation of any generator panics, overflows or indexes out of bounds; JitterRng survives every single timer deviation and every burst of three extreme consecutive probe deltas in collections and in test_timer.",
+        note="set_rounds(0) (documented panic) not driven; counter wrap at 2^64 out of reach; genuine defect fixed in 8a4c6ed (i32 subtraction overflow in the stuck test)",
+        ref="4/C14"),
+    "C15": dict(
+        engine="E3", cat="model_checking",
+        technique="affine GF(2) models of the LFSR fold (pool x time), the stir step and six whole-collection maps extracted from the code through the pool hook; ranks decided on the model; conformance replay on all inputs of weight <= 2/3; colliding inputs solved for and confirmed on the real code when the model does not bind",
+        text="rank 64 of the pool part and of the time part of the fold, of the stir step and of every pool->output collection map means each is one-to-one for all 2^64 values; the models are bound to the code by exhaustive low-weight replay, and a non-linear or rank-deficient mixer is reported with two concrete colliding inputs.",
+        note="hook (feature rngs_verif) reads/writes the pool; linearity beyond replayed weights",
+        ref="4/C15"),
+    "C16": dict(
+        engine="E1xE4", cat="model_checking",
+        technique="all histories of depth 4/5 over output calls and clone operations for rounds 1,2,3,64,255 on scripted non-stuck timers; each step checked for its value against a native-width twin and for the number of timer readings on the generator's own cursor",
+        text="Two consecutive next_u32 return low then high half of one collected value with the timer read only during the first; every other output call performs a fresh collection of the expected number of readings; a clone's first output always comes from a fresh collection. The one literal deviation (fill_bytes of 1..4 bytes with a half pending reuses the half, by design of the crate) is a recorded known finding.",
+        note="non-stuck scripted timers; clones get an identical timer (independent cursor); known finding C16:fill-tail-reuses-pending-half",
+        ref="4/C16"),
 }
 
 PLAN_REASON = "check not built yet (work in progress; DESIGN.md section 4 has the plan)"
